@@ -22,8 +22,8 @@ CLAIMS = {
   "note": "Sizes (output length, split point, run length, bit width) are concrete per harness, data bytes / values / bit positions symbolic (symbolic sizes make CBMC merge infeasible error returns into the decoder state). Outside: thrift footer and page headers, compression codecs, dictionary pages, DELTA_LENGTH/DELTA_BYTE_ARRAY, BYTE_STREAM_SPLIT, PLAIN with definition levels, column reader across pages/row groups, metadata table functions.",
   "design": "§3 C10"},
  "C15": {
-  "text": "Narrow claim: the run-time kernels reachable from well-formed SQL return a value or an error in bounded time for every argument value, decided by the kernel harnesses tagged C15 (integer operators' unrepresentable region, gcd/lcm extremes, substring / left / right / lpad with extreme or negative arguments, generate_series at the i64 limits, decimal type arithmetic with negative scales); thorough adds the tokenizer on every UTF-8 text of <= 2 bytes. The integer-operator panics are known findings F1/F2/F17; the hangs and panics in the string kernels, generate_series and the decimal type rule were found and fixed.",
-  "note": "Outside: parser, resolver, binder, planner recursion depth, session/catalog state after a failed statement, worker-thread panic propagation.",
+  "text": "Narrow claim: the run-time kernels reachable from well-formed SQL return a value or an error in bounded time for every argument value, decided by the kernel harnesses tagged C15 (integer operators' unrepresentable region, gcd/lcm extremes, substring / left / right / lpad with extreme or negative arguments, generate_series at the i64 limits, decimal type arithmetic with negative scales). The integer-operator panics are known findings F1/F2/F17; the hangs and panics in the string kernels, generate_series and the decimal type rule were found and fixed.",
+  "note": "A tokenizer harness (every UTF-8 text of <= 3 bytes) was written but did not finish within 1800 s even for one byte (keyword tables, String-valued tokens) and was removed. Outside: tokenizer, parser, resolver, binder, planner recursion depth, session/catalog state after a failed statement, worker-thread panic propagation.",
   "design": "§3 C15"},
  "C16": {
   "text": "Bounded model checking with CBMC's memory model (null/dangling/out-of-bounds/misaligned dereference, copy_nonoverlapping overlap, double/invalid free) of the hand-managed containers: DbVec<u8> through allocation, two pushes with reallocation, shrink, grow, read-back and drop; push_slice_no_resize; StringPtr/StringView construction and read-back on both sides of the 12-byte inline threshold and their 16-byte round trip. Every other harness of this framework also runs under the same pointer checks.",
